@@ -32,6 +32,9 @@ def scenarios(seed, tier, failed):
         yield {'kind': 'roundtrip', 'name': 'C26_FALSY', 'payload': pl}
     for nm in ('highest_inner_signal', 'keys', 'append', 'name_for_signal', 'items', 'signal', 'payload', '__class__'):
         yield {'kind': 'roundtrip', 'name': nm, 'payload': [1]}
+    # histories: the same message decoded again after the receiver changed what the first decoding gave it
+    yield {'kind': 'again', 'name': 'C26_AGAIN', 'payload': {'todo': ['a', 'b'], 'seq': 7}}
+    yield {'kind': 'again', 'name': 'C26_AGAIN', 'payload': [1, [2, 3]]}
     for i in range(300 if tier == 'quick' else 20000):
         yield {'kind': 'roundtrip', 'name': 'C26_%s' % rnd.choice(['A', 'B', 'x y', 'été', 'n%d' % i]),
                'payload': gen(rnd)}
@@ -49,6 +52,19 @@ def run(sc):
         return False, 'signal name %r came back as %r' % (sc['name'], r.signal_name), 'roundtrip'
     if r.payload != sc['payload'] or type(r.payload) is not type(sc['payload']):
         return False, 'payload %r came back as %r' % (sc['payload'], r.payload), 'roundtrip'
+    if sc['kind'] == 'again':
+        wire = Event.dumps(e)
+        first = Event.loads(wire)
+        if isinstance(first.payload, dict):
+            first.payload['seen'] = True
+        elif isinstance(first.payload, list):
+            first.payload.append('seen')
+        second = Event.loads(wire)
+        if second.payload != sc['payload']:
+            return False, 'second decoding of the same message gives payload %r, sent %r' % (second.payload, sc['payload']), \
+                'roundtrip'
+        if second is first:
+            return False, 'two decodings of one message are the same Event object', 'roundtrip'
     if r.signal != signals[sc['name']]:
         return False, 'number %r is not the one bound to %r here (%r)' % (r.signal, sc['name'], signals[sc['name']]), 'roundtrip'
     return True, ''
